@@ -7,6 +7,8 @@ ids="$@"; [ -z "$ids" ] && ids=$(ls "$here/mutants"/*.json | xargs -n1 basename 
 fail=0
 for id in $ids; do
   prop=$(jq -r .property "$here/mutants/$id.json"); expect=$(jq -r .expect "$here/mutants/$id.json")
+  miss=$(jq -r '.known_miss // empty' "$here/mutants/$id.json")
+  if [ -n "$miss" ]; then echo "MUTANT $id ($prop): known miss, skipped ($miss)"; continue; fi
   scratch=$(mktemp -d /var/tmp/gvcrepo.XXXX)
   rsync -a --exclude .git /repo/ "$scratch/"
   if ! (cd "$scratch" && patch -s -p1 < "$here/mutants/$id.patch"); then echo "MUTANT $id: patch does not apply"; fail=1; rm -rf "$scratch"; continue; fi
